@@ -73,6 +73,7 @@ def spelled(v):
 
 class C19(PureCheck):
     pid = "C19"
+    subst_every = 6
     warm_every = 3
     rule = ("pool of FmtStr values from Layouts(2,2) over {plain, red, bold+on_blue, red+bold=False} (same text/different "
             "formatting, same display/different run boundaries, empty runs, explicit False) plus every plain str of the pool's "
